@@ -148,6 +148,52 @@ fn op_bvs(ints: &[i64], sc: &[V], alias: bool) -> Out {
     }
 }
 
+/// `bfold`: ints kind,k (kind 0 cfuse / 1 afuse / 2 wfuse; 1 <= k <= 64); scalars k x B(4), then the weight gamma for
+/// afuse / wfuse.  Left fold `acc = acc.op(&w[j])?` for j = 1..k-1 starting from acc = w[0]: `ok B(4)` or, when step j
+/// fails, `err l step=<j>` (then `rej=`).  Variant token `vs`: the multinomial fold of the converted operands
+/// (`acc = fo.fuse(&acc, &w[j])` with ACm / Avg / Wgh, never validating), converted back, follows the binomial result:
+/// `ok L(4) R(4)` / `err l R(4) step=<j>`; R is computed first so that `rej` belongs to the binomial fold.
+fn op_bfold(ints: &[i64], sc: &[V], vs: bool) -> Out {
+    need!(ints.len() == 2);
+    let kind = ints[0];
+    need!((0..=2).contains(&kind));
+    need!((1..=64).contains(&ints[1]));
+    let k = ints[1] as usize;
+    need!(sc.len() == 4 * k + if kind == 0 { 0 } else { 1 });
+    let g = if kind == 0 { 0.0 } else { sc[4 * k] };
+    let ws: Vec<BOpinion<V>> = sc[..4 * k].chunks(4).map(bop).collect();
+    let mut rt = String::new();
+    if vs {
+        let fo = match kind {
+            0 => FuseOp::ACm,
+            1 => FuseOp::Avg,
+            _ => FuseOp::Wgh,
+        };
+        let mut macc = Opinion1d::<V, 2>::from(bop(&sc[..4]));
+        for j in 1..k {
+            let mw = Opinion1d::<V, 2>::from(bop(&sc[4 * j..4 * j + 4]));
+            macc = fo.fuse(&macc, &mw);
+        }
+        bdump(&BOpinion::<V>::from(macc), &mut rt);
+    }
+    let mut acc = bop(&sc[..4]);
+    for j in 1..k {
+        let r = match kind {
+            0 => acc.cfuse(&ws[j]),
+            1 => acc.afuse(&ws[j], g),
+            _ => acc.wfuse(&ws[j], g),
+        };
+        match r {
+            Ok(w) => acc = w,
+            Err(e) => return Out::ErrWith(e.0, format!("{rt} step={j}")),
+        }
+    }
+    let mut s = String::new();
+    bdump(&acc, &mut s);
+    s.push_str(&rt);
+    Out::Ok(s)
+}
+
 /// Every conversion path between `BOpinion` and `Opinion1d<_, 2>` (src/convert.rs) and the simplex view (src/bi.rs):
 /// `ok O(2) O(2) B B B B S(2) O(2) p p[2] p`, see PROTOCOL.md.
 fn op_bconv_all(ints: &[i64], sc: &[V]) -> Out {
@@ -271,6 +317,7 @@ fn op_bi(op: &str, var: &[&str], ints: &[i64], sc: &[V]) -> Out {
     let has = |t: &str| var.iter().any(|v| *v == t);
     match op {
         "bvs" => op_bvs(ints, sc, has("alias")),
+        "bfold" => op_bfold(ints, sc, has("vs")),
         "blaw" => op_blaw(ints, sc, has("alias")),
         "bconv_all" => op_bconv_all(ints, sc),
         "bcmpd" => op_bcmpd(ints, sc),
